@@ -1688,6 +1688,17 @@ def sm_join(eng, recv, r, args, kwargs, node):
     raise OutOfSubset(node, f"join of {v!r} with separator length {r.const_len()}")
 
 
+@seqm("split")
+def sm_split(eng, recv, r, args, kwargs, node):
+    sep = eng.deref(args[0]) if args else None
+    if isinstance(sep, VSeq) and sep.const_len() == 1 and len(args) == 1 and not kwargs:
+        v = VOpaque(tag="split")
+        v.split_of = (r, z3.simplify(sep.at(z3.IntVal(0))))
+        v.iter_opaque = True
+        return v
+    raise OutOfSubset(node, "bytes.split supported for a one-byte separator without maxsplit (iteration only)")
+
+
 @seqm("decode")
 def sm_decode(eng, recv, r, args, kwargs, node):
     enc = args[0].s if args and isinstance(args[0], VStr) else (kwargs["encoding"].s if "encoding" in kwargs and isinstance(kwargs["encoding"], VStr) else "utf-8")
